@@ -85,9 +85,16 @@ type labelNode struct {
 	l map[string]*labelNode
 }
 
-func (n *labelNode) AddLeaf(label []byte) {
+// isShortLabel reports whether label can use the zero-padded [24]byte key.
+// A label that ends with a zero byte cannot: padding would make it collide
+// with its own prefix (e.g. "a\x00" and "a").
+func isShortLabel(label []byte) bool {
 	l := len(label)
-	if l <= 24 {
+	return l <= 24 && (l == 0 || label[l-1] != 0)
+}
+
+func (n *labelNode) AddLeaf(label []byte) {
+	if isShortLabel(label) {
 		if n.s == nil {
 			n.s = make(map[[24]byte]*labelNode)
 		}
@@ -103,8 +110,7 @@ func (n *labelNode) AddLeaf(label []byte) {
 }
 
 func (n *labelNode) GetOrAddChild(label []byte) *labelNode {
-	l := len(label)
-	if l <= 24 {
+	if isShortLabel(label) {
 		var key [24]byte
 		copy(key[:], label)
 		if child := n.s[key]; child != nil {
@@ -130,8 +136,7 @@ func (n *labelNode) GetOrAddChild(label []byte) *labelNode {
 }
 
 func (n *labelNode) GetChild(label []byte) (child *labelNode, ok bool) {
-	l := len(label)
-	if l <= 24 {
+	if isShortLabel(label) {
 		var key [24]byte
 		copy(key[:], label)
 		child, ok = n.s[key]
